@@ -155,6 +155,11 @@ class Evaluator:
             return self.rect(*r[1:])
         if k == 'bin':
             a, b = self.eval(t[2], host), self.eval(t[3], host)
+            for sub, val in ((t[2], a), (t[3], b)):
+                if sub[0] == 'call' and val == xl.BLANK:
+                    # whether a function hands an empty cell on as a blank or
+                    # as 0 decides FALSE=IF(TRUE,<empty>): not prescribed here
+                    return UNKNOWN
             return self.binop(t[1], a, b)
         if k == 'call':
             return self.call(t[1], t[2], host)
